@@ -744,6 +744,9 @@ class InterpolatedPredictionStrategy(DefaultPredictionStrategy):
             return super(InterpolatedPredictionStrategy, self).exact_predictive_covar(test_test_covar, test_train_covar)
 
         self._last_test_train_covar = test_train_covar
+        if settings.skip_posterior_variances.on():
+            # as in DefaultPredictionStrategy: the setting promises a ZeroLinearOperator on every path
+            return ZeroLinearOperator(*test_test_covar.size())
         test_interp_indices = test_train_covar.left_interp_indices
         test_interp_values = test_train_covar.left_interp_values
 
